@@ -174,7 +174,7 @@ def eligible_for_model(s):
     odd = {"E", "PE"}
     if any(l["type"] in odd for l in s["target"]["in"] + s["inputs"]):
         return False
-    return not s.get("gens") and not any(c.get("nilOut") for c in s["convs"])
+    return not s.get("gens")
 
 
 def canon(kind, log, inputs, valtok):
